@@ -169,3 +169,10 @@ pub fn bad_cell_numbers(rng: &mut Rng, depth: u8) -> Vec<u64> {
   v.sort(); v.dedup();
   v
 }
+
+/// The same direction expressed with a longitude outside [0, 2pi) one time in eight (the statements say "any centre" / "any position";
+/// the sum lon + 2k.pi is rounded, i.e. this is a nearby position, judged as given)
+pub fn any_turn(rng: &mut Rng, lon: f64) -> f64 {
+  let l = lon.rem_euclid(TWO_PI);
+  if rng.below(8) == 0 { let k = *rng.pick(&[-3.0, -2.0, -1.0, 1.0, 2.0]); l + k * TWO_PI } else { l }
+}
